@@ -40,6 +40,60 @@ STM = [
     "def late():\n    import helper\n    return helper.HX\nprint(late())",
     "fh = open('data.txt')\nprint(fh.read())\nfh.close()", "with open('data.txt') as fh2:\n    for ln in fh2:\n        print(ln.strip())",
 ]
+# a second alphabet: language semantics where running in a dict through exec(), with mocked builtins and modules,
+# could differ from running the file (scoping, class bodies, generators, decorators, imports, formatting, exits)
+LANG = ['x = 5',
+ 'def outer():\n    k = 1\n    def inner():\n        nonlocal k\n        k += 1\n        return k\n    return inner()\nprint(outer())',
+ 'gen = (i for i in range(3))\nprint(next(gen), list(gen))',
+ 'def gf():\n    yield 1\n    yield 2\nprint(list(gf()))',
+ 'class A:\n    cnt = 0\n    def inc(self):\n        A.cnt += 1\n        return A.cnt\nprint(A().inc(), A().inc())',
+ 'class B:\n    base = 2\n    vals = [i for i in range(3)]\nprint(B.vals, B.base)',
+ "try:\n    raise ValueError('v')\nexcept ValueError as e:\n    print(repr(e), e.args)\nfinally:\n    print('fin')",
+ "assert x == 5, 'msg'",
+ "assert x == 6, 'wrong x'",
+ 'print(isinstance(True, int), 0.1 + 0.2, 7 // -2, -7 % 3, round(2.5), round(3.5))',
+ 'a, *b = [1, 2, 3]\nprint(a, b)',
+ "print({1, 2} | {3}, {**{'a': 1}, 'b': 2})",
+ "print('%s-%d' % ('a', 3), '{}:{:>3}'.format(1, 2))",
+ "import random\nrandom.seed(3)\nprint(random.randint(1, 100), random.choice('abc'))",
+ 'import time\nt0 = time.time() > 0\ntime.sleep(0)\nprint(t0)',
+ 'from math import *\nprint(floor(2.5), pi > 3)',
+ 'import math as m\nprint(m.floor(-0.5), m.isclose(0.1 + 0.2, 0.3))',
+ "print(max([3, 1, 2]), min('bca'), sum([0.1] * 3), abs(-2), divmod(7, 2))",
+ "print(list(map(str, [1, 2])), list(zip('ab', [1, 2])), list(enumerate('ab')))",
+ "s2 = 'héllo ✓'\nprint(s2, len(s2), s2.upper())",
+ "print('a\\tb\\\\n', r'raw\\n')",
+ "def rec(n):\n    return rec(n + 1)\ntry:\n    rec(0)\nexcept RecursionError:\n    print('deep')",
+ "import sys\nprint('bye')\nsys.exit(2)",
+ 'raise SystemExit',
+ "raise KeyError('k')",
+ 'raise Exception',
+ "class E(Exception):\n    pass\ntry:\n    raise E('boom')\nexcept E as err:\n    print(type(err).__name__, err)",
+ "class E2(Exception):\n    pass\nraise E2('out')",
+ "def deco(fn):\n    def wrap(*a):\n        print('call')\n        return fn(*a)\n    return wrap\n@deco\ndef hi(n):\n    return n\nprint(hi(2))",
+ 'print(sum(i for i in range(4) if i % 2))',
+ 'def show():\n    print(x)\nshow()\nx = 6\nshow()',
+ 'import helper\nimport helper\nprint(helper.hf(1))',
+ 'from dataclasses import dataclass\n@dataclass\nclass Pt:\n    px: int\n    py: int = 0\nprint(Pt(1), Pt(1) == Pt(1, 0))',
+ "import json\nprint(json.dumps({'a': [1, 2]}), json.loads('[1, 2]'))",
+ 'print(str(1e100), 10 ** 20, 1 / 3, 2 ** 0.5)',
+ "print(chr(65), ord('a'), hex(255), bin(5), repr('q'), ascii('é'))",
+ 'print(bool([]), None is None, 1 if x else 2)',
+ "words = 'the quick brown'.split()\nprint(sorted(words, key=len, reverse=True), ' '.join(reversed(words)))",
+ "total = 0\nfor i, ch in enumerate('abc'):\n    if ch == 'b':\n        continue\n    total += i\nelse:\n    print('done', total)",
+ 'while True:\n    x -= 1\n    if x < 3:\n        break\nprint(x)',
+ 'mat = [[0] * 2 for _ in range(2)]\nmat[0][1] = 7\nprint(mat)',
+ 'alias = lst2 = [1]\nalias.append(2)\nprint(lst2 is alias, lst2)',
+ 'print(type(print).__name__, type(len).__name__, callable(input))',
+ "print(int('12') + float('1.5'), str(3) * 2, list('ab'), tuple([1]), set([1, 1]), dict(a=1))",
+ 'tmp = 1\ndel tmp',
+ 'import string\nprint(string.ascii_lowercase[:3], string.digits)',
+ 'def kwonly(a, /, b, *, c=3, **rest):\n    return a, b, c, rest\nprint(kwonly(1, 2, d=4))',
+ "print(*[1, 2], sep='')\nprint('no newline', end='')\nprint()",
+ 'print(x if x > 3 else -x, (lambda q: q * 2)(x), [y for y in range(x) if y > 2])',
+ 'n2 = 0\ndef bump():\n    n2 = 1\n    return n2\nprint(bump(), n2)',
+ "def uses_before():\n    print(late_name)\nlate_name = 'ok'\nuses_before()",
+ 'def bad_local():\n    print(x)\n    x = 1\nbad_local()']
 QUEUES = [[], ['3'], ['3', 'x'], ['3 ', ' x\t']]
 EXTRA_FILES = {'helper.py': "print('loading helper')\nHX = 1\ndef hf(a):\n    return a + HX\n",
                'data.txt': "line one\nline two\n"}
@@ -181,7 +235,7 @@ def summarize(ns):
     return res
 
 
-def make_programs(max_len, pool):
+def make_programs(max_len, pool, STM=STM):
     def body(ctx):
         n = ctx.choose(max_len, 'n') + 1
         idx = [ctx.choose(len(STM) if i == 0 else min(pool, len(STM)), 's%d' % i) for i in range(n)]
@@ -314,8 +368,12 @@ def bounds(tier):
 
 def phases(tier):
     ph = [Phase('programs', make_programs(2, len(STM)), setup=_setup, chunk=200, describe='all programs of <=2 statements x input queues'),
+          Phase('language', make_programs(2, len(LANG), LANG), setup=_setup, chunk=200,
+                describe='all programs of <=2 constructs over the language-semantics alphabet (%d constructs)' % len(LANG)),
           Phase('calls', body_calls, setup=_setup, chunk=100, describe='student function x argument x call form')]
     if tier == 'thorough':
+        ph.append(Phase('language-3', make_programs(3, 16, LANG), setup=_setup, chunk=200,
+                        describe='programs of 3 language constructs (2nd/3rd from the first 16)'))
         ph.append(Phase('programs-3', make_programs(3, 30), setup=_setup, chunk=200,
                         describe='programs of 3 statements (2nd/3rd from the first 30) x input queues'))
     return ph
